@@ -1,6 +1,7 @@
 // C17 harness: GEOSMakeValid_r / GEOSMakeValidWithParams_r of the real library, one request per line, one result line per request.
 //   request:  MV <method: L|S|D> <keep: 0|1> <wkt>        L = linework, S = structure (GEOSMakeValidWithParams_r), D = GEOSMakeValid_r
 //   result :  <tokens of the result> | V=<isValid(result)> IV=<isValid(input)> EQ=<GEOSEquals(input,result)> DI=<dim in> DO=<dim out>
+//             (EQ=2: GEOSEquals_r raised an exception, EQ=3: not evaluated)
 //             IDEM=<fix(result) equals result exactly after normalisation> IDEMV=<isValid(fix(result))> | <tokens of fix(result)>
 //             or  NULL <error message>
 //   tokens :  PT x y | PT E | LS n x y .. | LR .. | PG k (n x y ..)*k | MPT|MLS|MPG|GC m ...   numbers %.17g (nan / inf / -inf)
@@ -53,6 +54,16 @@ static void geomTok(const GEOSGeometry* g, std::ostringstream& o) {
     }
 }
 static std::string tok(const GEOSGeometry* g) { std::ostringstream o; geomTok(g, o); return o.str(); }
+// a collection with an EMPTY element somewhere below it (RelateNG crashes on some of these: reported to C01/C02/C12)
+static bool hasEmptyPart(const GEOSGeometry* g, bool top = true) {
+    int t = GEOSGeomTypeId_r(h, g);
+    if (t == GEOS_MULTIPOINT || t == GEOS_MULTILINESTRING || t == GEOS_MULTIPOLYGON || t == GEOS_GEOMETRYCOLLECTION) {
+        int n = GEOSGetNumGeometries_r(h, g);
+        for (int i = 0; i < n; i++) if (hasEmptyPart(GEOSGetGeometryN_r(h, g, i), false)) return true;
+        return false;
+    }
+    return !top && GEOSisEmpty_r(h, g);
+}
 static GEOSGeometry* fix(const GEOSGeometry* g, char method, int keep) {
     if (method == 'D') return GEOSMakeValid_r(h, g);
     GEOSMakeValidParams* p = GEOSMakeValidParams_create_r(h);
@@ -78,9 +89,12 @@ int main() {
         GEOSGeometry* r = fix(g, m.empty() ? 'D' : m[0], keep);
         if (!r) { printf("NULL %s\n", lastErr.c_str()); GEOSGeom_destroy_r(h, g); fflush(stdout); continue; }
         std::ostringstream o;
-        o << tok(r) << " | V=" << (int)GEOSisValid_r(h, r) << " IV=" << (int)GEOSisValid_r(h, g);
+        int iv = (int)GEOSisValid_r(h, g);
+        o << tok(r) << " | V=" << (int)GEOSisValid_r(h, r) << " IV=" << iv;
         lastErr.clear();
-        o << " EQ=" << (int)GEOSEquals_r(h, g, r) << " DI=" << GEOSGeom_getDimensions_r(h, g) << " DO=" << GEOSGeom_getDimensions_r(h, r);
+        // GEOSEquals_r only where the property needs it (valid input) and where RelateNG is known not to crash
+        int eq = (iv == 1 && !hasEmptyPart(g) && !hasEmptyPart(r)) ? (int)GEOSEquals_r(h, g, r) : 3;
+        o << " EQ=" << eq << " DI=" << GEOSGeom_getDimensions_r(h, g) << " DO=" << GEOSGeom_getDimensions_r(h, r);
         GEOSGeometry* r2 = fix(r, m.empty() ? 'D' : m[0], keep);
         if (!r2) o << " IDEM=-1 IDEMV=-1 | NULL";
         else {
